@@ -60,6 +60,8 @@ StuckS(st) == /\ QuiescentS(st) /\ ~st.stopped
               /\ \A d \in Dest : Len(st.q[d]) < LowC
               /\ (st.rpaused \/ \E c \in Recv : st.rconn[c] /\ ~st.prod[c])
 
+StopDone(st, d) == st.stopped /\ ~st.trying[d] /\ ~st.stopReq[d] /\ ~st.pconn[d]
+
 PropFlags(post, p, e) ==
      (IF \E d \in Dest : OutOf(post.wire[d], post.q[d]) # OutOf(p.wire[d], p.q[d]) THEN {"content"} ELSE {})
 \cup (IF p.drops # post.drops THEN {"drops"} ELSE {})
@@ -70,9 +72,12 @@ PropFlags(post, p, e) ==
         THEN {"batch"} ELSE {})
 \* a connection began to close in this callback while its queue still held datapoints, or bytes were written to a
 \* connection that was already closing - unless a connection-quality reset closed it (its buffer is still transmitted)
+\* (bytes written to the closing connection of a destination that had COMPLETED its orderly stop - stop requested, queue
+\* flushed, connection closed - can only come from a removal re-routing datapoints to it during the stop: F19)
 \cup (IF \E d \in Dest : \/ (p.newclose[d] /\ ~(post.rclosed[d] /\ post.closedBad = s.closedBad))
-                         \/ (p.wac[d] /\ ~post.rclosed[d])
+                         \/ (p.wac[d] /\ ~post.rclosed[d] /\ ~StopDone(s, d))
         THEN {"stopflush"} ELSE {})
+\cup (IF \E d \in Dest : p.wac[d] /\ ~post.rclosed[d] /\ StopDone(s, d) THEN {"fake-stop"} ELSE {})
 \* the routes are taken from the recorded execution (the hash ring decides them), but not blindly: while a destination
 \* is configured after the callback, nothing routed during it may have gone nowhere, and a route only names
 \* destinations configured before or after it
